@@ -27,7 +27,7 @@ def iterTab (f : Int → Int) : Nat → Int → Int
   | n+1, x => iterTab f n (f x)
 
 /-- `CSI … <final>` in state ReadCSISequence(is_start); `current_escape_sequence` is not modelled -/
-def csiFinal (cfg : Cfg) (o : Orc) (inv : Int → St → Res St) (st : St) (isStart : Bool) (ch : Char) : R :=
+def csiFinal (cfg : Cfg) (o : Orc) (st : St) (isStart : Bool) (ch : Char) : R :=
   let nums := st.p.nums
   let s := st.s
   let c := st.c
@@ -139,6 +139,7 @@ def csiFinal (cfg : Cfg) (o : Orc) (inv : Int → St → Res St) (st : St) (isSt
       if a = 8 then
         let w := max (min w 132) 1
         let h := max (min h 60) 1
+        let d := { d with p := { d.p with resized := true } }
         ret (withS d { s with tw := w, th := h, tabs := resetTabs w, mtb := none, mlr := none }) .resize
       else ret d .err
     | [a, _, _, _] => ret d (if a = 0 ∨ a = 1 then .ok else .err)
@@ -266,7 +267,10 @@ def endCsi (o : Orc) (inv : Int → St → Res St) (st : St) (f ch : Char) : R :
     else ret st .ok
   else if f = '$' then
     if ch = 'w' then ret d .ok
-    else if ch = 'x' then ret d (if nums.length ≠ 5 then .err else .ok)
+    else if ch = 'x' then
+      -- fill character must be a Unicode scalar value (`char::from_u32`)
+      let v := firstOr nums 0
+      ret d (if nums.length ≠ 5 then .err else if v < 55296 ∨ (57344 ≤ v ∧ v ≤ 1114111) then .ok else .err)
     else if ch = 'z' ∨ ch = '{' then ret d (if nums.length ≠ 4 then .err else .ok)
     else ret st .ok
   else if f = ' ' then
@@ -367,7 +371,7 @@ def stepCore (cfg : Cfg) (o : Orc) (inv : Int → St → Res St) (st : St) (ch :
       dfltChar cfg (dflt st) ch
   | .devAttr => devAttr st ch
   | .endCsi f => endCsi o inv st f ch
-  | .csi isStart => csiFinal cfg o inv st isStart ch
+  | .csi isStart => csiFinal cfg o st isStart ch
   | .dflt => dfltChar cfg st ch
 
 /-- replay a macro body; errors of single characters are logged and ignored, panics propagate -/
